@@ -1068,9 +1068,12 @@ class Gen:
                 P(t2), tag, mt, to_cx(e2, lambda l: flit(l[1], l[2])), P(t), tag, to_cx(e2, lambda l: flit(l[1], l[2])), ct))
             expect[tag + ".k"] = v2
             expect[tag + ".k2"] = v
-            if not isf(t):
+            if not isf(t) and promote(t) == t:      # narrower types: known finding C07:generic-no-promotion (corpus)
                 body.append('  PS ("%s.t", TYPEID (%s) * 100 + (int) sizeof (%s));' % (tag, ct, mt))
                 expect[tag + ".t"] = TNAMES.index(t) * 100 + width(t) // 8
+            elif not isf(t):
+                body.append('  PS ("%s.t", (int) sizeof (%s) * 100 + (int) sizeof (%s));' % (tag, ct, mt))
+                expect[tag + ".t"] = width(t) // 8 * 101
             else:
                 body.append('  PS ("%s.t", (int) sizeof (%s) * 100 + (int) sizeof (%s));' % (tag, ct, rt))
                 sz = {"float": 4, "double": 8, "ldouble": 16}[t]
@@ -1200,5 +1203,5 @@ def gen_program(rng, index, pair_cursor):
             units.append(g.unit_scopy([base + i + 1 for i in range(8)]))
         elif k == "calls": units.append(g.unit_calls())
         elif k == "fcexpr": units.append(g.unit_fcexpr())
-        elif k == "saddr": units.append(g.unit_saddr(index // 2 + rng.below(3)))
+        elif k == "saddr": units.append(g.unit_saddr(index // 2))
     return units
